@@ -208,7 +208,11 @@ fn eval_path_expr(
         }
         expr::PathExpr::Root => match node {
             dom::XmlNode::Document(_) => vec![node].as_value(),
-            _ => vec![node.owner_document().unwrap().as_node()].as_value(),
+            _ => vec![node
+                .owner_document()
+                .ok_or(error::Error::InvalidType)?
+                .as_node()]
+            .as_value(),
         },
     };
 
@@ -286,7 +290,10 @@ fn eval_filtered_loc_expr(
         } else {
             let root = match node {
                 dom::XmlNode::Document(_) => node,
-                _ => node.owner_document().unwrap().as_node(),
+                _ => node
+                    .owner_document()
+                    .ok_or(error::Error::InvalidType)?
+                    .as_node(),
             };
             match op {
                 expr::LocationPathOperator::Current => vec![root],
